@@ -22,7 +22,8 @@
    r2               thread = self.prepare_thread      (single read since the fix of defect 25)
    r3               thread.join()
    r4               if not hasattr(self, 'conn'):
-   c5     _call:    self.conn.send_bytes(...)
+   c4/cx  _call:    with self.call_lock:              (enter / exit; CallLock = TRUE: the repaired code)
+   c5               self.conn.send_bytes(...)
    c6               ... = loads(self.conn.recv_bytes())
    k1     close:    self.conn
    k2               self.conn.send_bytes(dumps(('close', (), {})))
@@ -31,24 +32,29 @@
 
    JoinRace = TRUE re-creates the pre-fix code (two reads of prepare_thread in
    run(): truth test at r2, attribute access at r3) and is used to show that the
-   model finds the counterexample that motivated the fix.                      *)
+   model finds the counterexample that motivated the fix.
+   CallLock = FALSE re-creates _call() without the lock around send / receive:
+   replies are not addressed, so a caller can take the reply to another caller's
+   request (invariant OwnReply violated); with the lock every reply is its caller's. *)
 EXTENDS Naturals, Sequences, FiniteSets, TLC
 
 CONSTANTS Threads,      \* e.g. {"t1","t2","t3"}
           OpSeqs,       \* set of op sequences a thread may run, e.g. {<<"prepare","call">>, ...}
           MaxFail,      \* number of connection failures that may be injected (0 = none)
           JoinRace,     \* TRUE: pre-fix run() (defect 25)
+          CallLock,     \* TRUE: send + receive of a call under call_lock (FALSE: the code before that repair)
           Symmetric     \* TRUE: only non-decreasing assignments of OpSeqs to Threads
 
 VARIABLES ops,      \* [Threads -> OpSeqs], chosen in Init
           pc,       \* [Procs -> label]
           opi,      \* [Threads -> index of the op in progress]
-          lock,     \* "" or the holder
+          lock,     \* "" or the holder (prepare_lock)
+          clock,    \* "" or the holder of call_lock
           pt,       \* prepare_thread is not None
           conn,     \* hasattr(self, 'conn')
           connOpen, \* the connection object the attribute refers to is open
           srvUp,    \* the server at the other end of that connection is still serving
-          pending,  \* requests sent over that connection and not yet answered
+          pending,  \* the callers whose requests were sent over that connection and are not yet answered, oldest first
           launches, \* launches in the current session epoch
           live,     \* number of server processes alive (launched, not told to close)
           fails,    \* injected connection failures so far
@@ -59,7 +65,7 @@ VARIABLES ops,      \* [Threads -> OpSeqs], chosen in Init
           raced,    \* some op has ever been tainted: session accounting is unconstrained from then on
           answered  \* [Threads -> number of calls answered]
 
-vars == <<ops, pc, opi, lock, pt, conn, connOpen, srvUp, pending, launches, live, fails, loc, exc, started, tainted, raced, answered>>
+vars == <<ops, pc, opi, lock, clock, pt, conn, connOpen, srvUp, pending, launches, live, fails, loc, exc, started, tainted, raced, answered>>
 
 S == "s"                       \* the starter pseudo-process
 Procs == Threads \cup {S}
@@ -76,7 +82,7 @@ Init == /\ ops \in [Threads -> OpSeqs]
         /\ (Symmetric => \A a, b \in Threads : ThreadOrder[a] < ThreadOrder[b] => Rank(ops[a]) <= Rank(ops[b]))
         /\ pc = [p \in Procs |-> IF p = S THEN "idle" ELSE First(ops[p][1])]
         /\ opi = [t \in Threads |-> 1]
-        /\ lock = "" /\ pt = FALSE /\ conn = FALSE /\ connOpen = FALSE /\ srvUp = FALSE /\ pending = 0
+        /\ lock = "" /\ clock = "" /\ pt = FALSE /\ conn = FALSE /\ connOpen = FALSE /\ srvUp = FALSE /\ pending = <<>>
         /\ launches = 0 /\ live = 0 /\ fails = 0
         /\ loc = [t \in Threads |-> FALSE]
         /\ exc = {}
@@ -109,90 +115,97 @@ NoFinish == UNCHANGED <<opi, started, tainted, raced>>
 
 ---------------------------------------------------------------------------
 \* prepare()
-P1(t) == /\ pc[t] = "p1" /\ lock = "" /\ lock' = t /\ Goto(t, "p2") /\ Begin(t, FALSE) /\ UNCHANGED opi
+P1_(t)== /\ pc[t] = "p1" /\ lock = "" /\ lock' = t /\ Goto(t, "p2") /\ Begin(t, FALSE) /\ UNCHANGED opi
          /\ UNCHANGED <<ops, pt, conn, connOpen, srvUp, pending, launches, live, fails, loc, exc, answered>>
-P2(t) == /\ pc[t] = "p2" /\ Goto(t, IF pt THEN "px" ELSE "p3") /\ NoFinish
+P2_(t)== /\ pc[t] = "p2" /\ Goto(t, IF pt THEN "px" ELSE "p3") /\ NoFinish
          /\ UNCHANGED <<ops, lock, pt, conn, connOpen, srvUp, pending, launches, live, fails, loc, exc, answered>>
-P3(t) == /\ pc[t] = "p3" /\ Goto(t, IF conn THEN "px" ELSE "p4") /\ NoFinish
+P3_(t)== /\ pc[t] = "p3" /\ Goto(t, IF conn THEN "px" ELSE "p4") /\ NoFinish
          /\ UNCHANGED <<ops, lock, pt, conn, connOpen, srvUp, pending, launches, live, fails, loc, exc, answered>>
-P4(t) == /\ pc[t] = "p4" /\ pt' = TRUE /\ Goto(t, "p5") /\ NoFinish
+P4_(t)== /\ pc[t] = "p4" /\ pt' = TRUE /\ Goto(t, "p5") /\ NoFinish
          /\ UNCHANGED <<ops, lock, conn, connOpen, srvUp, pending, launches, live, fails, loc, exc, answered>>
-P5(t) == /\ pc[t] = "p5" /\ pc[S] = "idle"
+P5_(t)== /\ pc[t] = "p5" /\ pc[S] = "idle"
          /\ pc' = [pc EXCEPT ![t] = "px", ![S] = "s2"] /\ NoFinish
          /\ UNCHANGED <<ops, lock, pt, conn, connOpen, srvUp, pending, launches, live, fails, loc, exc, answered>>
-PX(t) == /\ pc[t] = "px" /\ lock' = "" /\ Finish(t)
+PX_(t)== /\ pc[t] = "px" /\ lock' = "" /\ Finish(t)
          /\ UNCHANGED <<ops, pt, conn, connOpen, srvUp, pending, launches, live, fails, loc, exc, answered>>
 
 \* _run(), executed by the starter or inline by a caller
-U2(p) == /\ pc[p] = "u2" /\ launches' = launches + 1 /\ live' = live + 1 /\ Goto(p, "u3") /\ NoFinish
+U2_(p)== /\ pc[p] = "u2" /\ launches' = launches + 1 /\ live' = live + 1 /\ Goto(p, "u3") /\ NoFinish
          /\ UNCHANGED <<ops, lock, pt, conn, connOpen, srvUp, pending, fails, loc, exc, answered>>
-U3ok(p) == /\ pc[p] = "u3" /\ conn' = TRUE /\ connOpen' = TRUE /\ srvUp' = TRUE /\ pending' = 0
+U3ok_(p)== /\ pc[p] = "u3" /\ conn' = TRUE /\ connOpen' = TRUE /\ srvUp' = TRUE /\ pending' = <<>>
            /\ Goto(p, IF p = S THEN "s3" ELSE "rx") /\ NoFinish
            /\ UNCHANGED <<ops, lock, pt, launches, live, fails, loc, exc, answered>>
 \* fault variant: the connection cannot be established (virtual time runs past the 5 s limit);
 \* the launched process never served anybody and is reaped by the fake: it is not a session
-U3fail(p) == /\ pc[p] = "u3" /\ fails < MaxFail /\ fails' = fails + 1
+U3fail_(p)== /\ pc[p] = "u3" /\ fails < MaxFail /\ fails' = fails + 1
              /\ launches' = launches - 1 /\ live' = live - 1
              /\ IF p = S
                 THEN /\ Goto(p, "s3") /\ exc' = exc /\ lock' = lock /\ NoFinish
                 ELSE /\ Goto(p, "rxe") /\ exc' = exc /\ lock' = lock /\ NoFinish   \* propagates through the with block
              /\ UNCHANGED <<ops, pt, conn, connOpen, srvUp, pending, loc, answered>>
-RXE(t) == /\ pc[t] = "rxe" /\ lock' = "" /\ Raise(t, "launch") /\ Finish(t)
+RXE_(t)== /\ pc[t] = "rxe" /\ lock' = "" /\ Raise(t, "launch") /\ Finish(t)
           /\ UNCHANGED <<ops, pt, conn, connOpen, srvUp, pending, launches, live, fails, loc, answered>>
 
 \* starter thread
-S2 == /\ pc[S] = "s2" /\ Goto(S, "u2") /\ NoFinish
+S2_== /\ pc[S] = "s2" /\ Goto(S, "u2") /\ NoFinish
       /\ UNCHANGED <<ops, lock, pt, conn, connOpen, srvUp, pending, launches, live, fails, loc, exc, answered>>
-S3 == /\ pc[S] = "s3" /\ pt' = FALSE /\ Goto(S, "idle") /\ NoFinish
+S3_== /\ pc[S] = "s3" /\ pt' = FALSE /\ Goto(S, "idle") /\ NoFinish
       /\ UNCHANGED <<ops, lock, conn, connOpen, srvUp, pending, launches, live, fails, loc, exc, answered>>
 
 \* _call()
-C2(t) == /\ pc[t] = "c2" /\ Goto(t, IF conn THEN "c5" ELSE "r1") /\ Begin(t, FALSE) /\ UNCHANGED opi
+CallEntry == IF CallLock THEN "c4" ELSE "c5"
+\* leaving the send / receive block: with the lock the `with` line is passed once more (release), then the op ends
+LeaveCall(t) == IF CallLock THEN Goto(t, "cx") /\ NoFinish ELSE Finish(t)
+C2_(t)== /\ pc[t] = "c2" /\ Goto(t, IF conn THEN CallEntry ELSE "r1") /\ Begin(t, FALSE) /\ UNCHANGED opi
          /\ UNCHANGED <<ops, lock, pt, conn, connOpen, srvUp, pending, launches, live, fails, loc, exc, answered>>
-R1(t) == /\ pc[t] = "r1" /\ lock = "" /\ lock' = t /\ Goto(t, "r2") /\ NoFinish
+R1_(t)== /\ pc[t] = "r1" /\ lock = "" /\ lock' = t /\ Goto(t, "r2") /\ NoFinish
          /\ UNCHANGED <<ops, pt, conn, connOpen, srvUp, pending, launches, live, fails, loc, exc, answered>>
-R2(t) == /\ pc[t] = "r2" /\ loc' = [loc EXCEPT ![t] = pt]
+R2_(t)== /\ pc[t] = "r2" /\ loc' = [loc EXCEPT ![t] = pt]
          /\ Goto(t, IF pt THEN "r3" ELSE "r4") /\ NoFinish
          /\ UNCHANGED <<ops, lock, pt, conn, connOpen, srvUp, pending, launches, live, fails, exc, answered>>
-R3(t) == /\ pc[t] = "r3"
+R3_(t)== /\ pc[t] = "r3"
          /\ IF JoinRace /\ ~pt
             THEN /\ Raise(t, "AttributeError-join") /\ lock' = "" /\ Finish(t)   \* None.join()
             ELSE /\ pc[S] = "idle"                                             \* join() returns when the starter has ended
                  /\ Goto(t, "r4") /\ NoFinish /\ UNCHANGED <<exc, lock>>
          /\ UNCHANGED <<ops, pt, conn, connOpen, srvUp, pending, launches, live, fails, loc, answered>>
-R4(t) == /\ pc[t] = "r4" /\ Goto(t, IF conn THEN "rx" ELSE "u2") /\ NoFinish
+R4_(t)== /\ pc[t] = "r4" /\ Goto(t, IF conn THEN "rx" ELSE "u2") /\ NoFinish
          /\ UNCHANGED <<ops, lock, pt, conn, connOpen, srvUp, pending, launches, live, fails, loc, exc, answered>>
-RX(t) == /\ pc[t] = "rx" /\ lock' = "" /\ Goto(t, "c5") /\ NoFinish
+RX_(t)== /\ pc[t] = "rx" /\ lock' = "" /\ Goto(t, CallEntry) /\ NoFinish
          /\ UNCHANGED <<ops, pt, conn, connOpen, srvUp, pending, launches, live, fails, loc, exc, answered>>
-C5(t) == /\ pc[t] = "c5"
-         /\ IF ~conn THEN Raise(t, "AttributeError-conn") /\ Finish(t) /\ UNCHANGED pending
-            ELSE IF ~connOpen THEN Raise(t, "OSError-closed") /\ Finish(t) /\ UNCHANGED pending
-            ELSE IF ~srvUp THEN Raise(t, "BrokenPipe") /\ Finish(t) /\ UNCHANGED pending
-            ELSE Goto(t, "c6") /\ NoFinish /\ pending' = pending + 1 /\ UNCHANGED exc
+C5_(t)== /\ pc[t] = "c5"
+         /\ IF ~conn THEN Raise(t, "AttributeError-conn") /\ LeaveCall(t) /\ UNCHANGED pending
+            ELSE IF ~connOpen THEN Raise(t, "OSError-closed") /\ LeaveCall(t) /\ UNCHANGED pending
+            ELSE IF ~srvUp THEN Raise(t, "BrokenPipe") /\ LeaveCall(t) /\ UNCHANGED pending
+            ELSE Goto(t, "c6") /\ NoFinish /\ pending' = Append(pending, t) /\ UNCHANGED exc
          /\ UNCHANGED <<ops, lock, pt, conn, connOpen, srvUp, launches, live, fails, loc, answered>>
 \* recv: a reply is there for whoever asks first (replies are not addressed: concurrent callers
 \* on one connection can take each other's reply); with nothing pending recv blocks for ever
 \* unless the server has gone (EOFError)
-C6(t) == /\ pc[t] = "c6"
+C6_(t)== /\ pc[t] = "c6"
          /\ IF ~conn THEN Raise(t, "AttributeError-conn") /\ UNCHANGED <<answered, pending>>
             ELSE IF ~connOpen THEN Raise(t, "OSError-closed") /\ UNCHANGED <<answered, pending>>
-            ELSE IF pending > 0 THEN answered' = [answered EXCEPT ![t] = @ + 1] /\ pending' = pending - 1 /\ UNCHANGED exc
+            ELSE IF pending # <<>>
+                 THEN /\ answered' = [answered EXCEPT ![t] = @ + 1] /\ pending' = Tail(pending)
+                      \* the oldest pending request may be another caller's: its reply is taken (recorded like an exception,
+                      \* with the taint of the op, so that the invariants below see it)
+                      /\ exc' = IF Head(pending) = t THEN exc ELSE exc \cup {<<t, opi[t], "reply-of-another-call", tainted[t]>>}
             ELSE /\ ~srvUp /\ Raise(t, "EOFError") /\ UNCHANGED <<answered, pending>>
-         /\ Finish(t)
+         /\ LeaveCall(t)
          /\ UNCHANGED <<ops, lock, pt, conn, connOpen, srvUp, launches, live, fails, loc>>
 
 \* close()
-K1(t) == /\ pc[t] = "k1"
+K1_(t)== /\ pc[t] = "k1"
          /\ IF conn THEN Goto(t, "k2") /\ Begin(t, TRUE) /\ UNCHANGED opi ELSE Finish(t)
          /\ UNCHANGED <<ops, lock, pt, conn, connOpen, srvUp, pending, launches, live, fails, loc, exc, answered>>
-K2(t) == /\ pc[t] = "k2"
+K2_(t)== /\ pc[t] = "k2"
          /\ IF ~conn THEN Raise(t, "AttributeError-conn") /\ Finish(t) /\ UNCHANGED <<live, launches, srvUp>>
             ELSE IF ~connOpen THEN Raise(t, "OSError-closed") /\ Finish(t) /\ UNCHANGED <<live, launches, srvUp>>
             ELSE IF ~srvUp THEN Raise(t, "BrokenPipe") /\ Finish(t) /\ UNCHANGED <<live, launches, srvUp>>
             ELSE /\ live' = live - 1 /\ launches' = 0 /\ srvUp' = FALSE   \* the server leaves its loop on 'close': the epoch ends
                  /\ Goto(t, "k3") /\ NoFinish /\ UNCHANGED exc
          /\ UNCHANGED <<ops, lock, pt, conn, connOpen, pending, fails, loc, answered>>
-K3(t) == /\ pc[t] = "k3"
+K3_(t)== /\ pc[t] = "k3"
          /\ IF ~conn THEN Raise(t, "AttributeError-conn") /\ Finish(t) /\ UNCHANGED <<connOpen, srvUp, live, launches>>
             ELSE /\ connOpen' = FALSE /\ Goto(t, "k4") /\ NoFinish /\ UNCHANGED exc
                  \* closing the client end makes a server that is still up see EOF and exit
@@ -200,14 +213,46 @@ K3(t) == /\ pc[t] = "k3"
                  /\ live' = IF srvUp THEN live - 1 ELSE live
                  /\ launches' = IF srvUp THEN 0 ELSE launches
          /\ UNCHANGED <<ops, lock, pt, conn, pending, fails, loc, answered>>
-K4(t) == /\ pc[t] = "k4"
+K4_(t)== /\ pc[t] = "k4"
          /\ IF ~conn THEN Raise(t, "AttributeError-conn") /\ UNCHANGED conn
             ELSE conn' = FALSE /\ UNCHANGED exc
          /\ Finish(t)
          /\ UNCHANGED <<ops, lock, pt, connOpen, srvUp, pending, launches, live, fails, loc, answered>>
 
+\* the actions above do not touch call_lock
+P1(t) == P1_(t) /\ UNCHANGED clock
+P2(t) == P2_(t) /\ UNCHANGED clock
+P3(t) == P3_(t) /\ UNCHANGED clock
+P4(t) == P4_(t) /\ UNCHANGED clock
+P5(t) == P5_(t) /\ UNCHANGED clock
+PX(t) == PX_(t) /\ UNCHANGED clock
+C2(t) == C2_(t) /\ UNCHANGED clock
+R1(t) == R1_(t) /\ UNCHANGED clock
+R2(t) == R2_(t) /\ UNCHANGED clock
+R3(t) == R3_(t) /\ UNCHANGED clock
+R4(t) == R4_(t) /\ UNCHANGED clock
+RX(t) == RX_(t) /\ UNCHANGED clock
+C5(t) == C5_(t) /\ UNCHANGED clock
+C6(t) == C6_(t) /\ UNCHANGED clock
+K1(t) == K1_(t) /\ UNCHANGED clock
+K2(t) == K2_(t) /\ UNCHANGED clock
+K3(t) == K3_(t) /\ UNCHANGED clock
+K4(t) == K4_(t) /\ UNCHANGED clock
+RXE(t) == RXE_(t) /\ UNCHANGED clock
+U2(p) == U2_(p) /\ UNCHANGED clock
+U3ok(p) == U3ok_(p) /\ UNCHANGED clock
+U3fail(p) == U3fail_(p) /\ UNCHANGED clock
+S2 == S2_ /\ UNCHANGED clock
+S3 == S3_ /\ UNCHANGED clock
+
+\* call_lock
+C4(t) == /\ pc[t] = "c4" /\ clock = "" /\ clock' = t /\ Goto(t, "c5") /\ NoFinish
+         /\ UNCHANGED <<ops, lock, pt, conn, connOpen, srvUp, pending, launches, live, fails, loc, exc, answered>>
+CX(t) == /\ pc[t] = "cx" /\ clock' = "" /\ Finish(t)
+         /\ UNCHANGED <<ops, lock, pt, conn, connOpen, srvUp, pending, launches, live, fails, loc, exc, answered>>
+
 Step(t) == \/ P1(t) \/ P2(t) \/ P3(t) \/ P4(t) \/ P5(t) \/ PX(t)
-           \/ C2(t) \/ R1(t) \/ R2(t) \/ R3(t) \/ R4(t) \/ RX(t) \/ C5(t) \/ C6(t)
+           \/ C2(t) \/ R1(t) \/ R2(t) \/ R3(t) \/ R4(t) \/ RX(t) \/ C4(t) \/ C5(t) \/ C6(t) \/ CX(t)
            \/ K1(t) \/ K2(t) \/ K3(t) \/ K4(t)
            \/ U2(t) \/ U3ok(t) \/ U3fail(t) \/ RXE(t)
 StarterStep == S2 \/ S3 \/ U2(S) \/ U3ok(S) \/ U3fail(S)
@@ -228,16 +273,19 @@ OneLaunchEver == NoCloseOps => launches + fails <= 1 + MaxFail
 
 \* no caller sees an exception caused by the handshake: every exception belongs to an op that
 \* overlapped a close(), or reports an injected launch failure
-NoHandshakeException == \A e \in exc : e[3] = "launch" \/ e[4]
-NoExceptionWithoutClose == NoCloseOps => \A e \in exc : e[3] = "launch"
+NoHandshakeException == \A e \in exc : e[3] \in {"launch", "reply-of-another-call"} \/ e[4]
+NoExceptionWithoutClose == NoCloseOps => \A e \in exc : e[3] \in {"launch", "reply-of-another-call"}
 PrepareNeverRaises == \A e \in exc : ops[e[1]][e[2]] # "prepare"
 
 \* every call is answered (when nothing is closed and nothing fails)
 CallsOf(t) == Cardinality({i \in 1..Len(ops[t]) : ops[t][i] = "call"})
 Answered == (AllDone /\ NoCloseOps /\ MaxFail = 0) => \A t \in Threads : answered[t] = CallsOf(t)
 
+\* a call that is answered is answered with the reply to its own request (unless it raced a close)
+OwnReply == \A e \in exc : e[3] # "reply-of-another-call" \/ e[4]
+
 \* structural sanity of the mechanism
-LockSane == lock \in Threads \cup {""}
+LockSane == lock \in Threads \cup {""} /\ clock \in Threads \cup {""}
 StarterOwnsPt == (pc[S] \in {"s2", "u2", "u3"}) => pt
 NoDeadlock == raced \/ AllDone \/ ENABLED Next
 Termination == <>AllDone
